@@ -462,7 +462,11 @@ class tenmat:
         -------
         :class:`numpy.ndarray`, float, int
         """
-        return self.data[item]
+        result = self.data[item]
+        if isinstance(result, np.ndarray):
+            # basic (slice) indexing yields a view of the matrix
+            result = result.copy()
+        return result
 
     def __mul__(self, other):
         """
